@@ -116,9 +116,12 @@ def check(prop, tier, seed):
     # copy (VERIF_REPO) must not overwrite it
     evdir = os.path.join(VERIF, "evidence") if os.path.abspath(REPO) == "/repo" else os.path.join(VERIF, "out", "evidence_dev")
     os.makedirs(evdir, exist_ok=True)
-    os.makedirs(os.path.join(VERIF, "replays", prop), exist_ok=True)
+    # (same for replay files: scratch-copy runs -- dev aids and the thorough self-test -- keep theirs apart)
+    rpdir = os.path.join(VERIF, "replays", prop) if os.path.abspath(REPO) == "/repo" else os.path.join(VERIF, "out", "replays_dev", prop)
+    os.makedirs(rpdir, exist_ok=True)
 
     n_obl = n_dis = n_inst = 0
+    slowest = []
     by_backend = {}
     solver_time = 0.0
     refuted, unknown, errors, vacuity = [], [], [], []
@@ -153,6 +156,7 @@ def check(prop, tier, seed):
             n_obl += 1
             n_inst += r.get("n_paths", 1)
             solver_time += r.get("secs", 0.0)
+            slowest.append((round(r.get("secs", 0.0), 2), r["oid"], r.get("solver")))
             for b in (r.get("solver") or "").split("+"):
                 if b:
                     by_backend[b] = by_backend.get(b, 0) + 1
@@ -185,7 +189,7 @@ def check(prop, tier, seed):
     seen_replay = set()
     for out, r in refuted:
         violations += 1
-        rp = os.path.join(VERIF, "replays", prop, _safe(r["oid"]) + ".json")
+        rp = os.path.join(rpdir, _safe(r["oid"]) + ".json")
         req = {"module": out["module"], "name": out["name"]}
         nat = None
         if r.get("replay") is not None:
@@ -238,7 +242,7 @@ def check(prop, tier, seed):
         nat = searched[key]
         if nat.get("status") == "fails":
             violations += 1
-            rp = os.path.join(VERIF, "replays", prop, _safe(r["oid"]) + ".json")
+            rp = os.path.join(rpdir, _safe(r["oid"]) + ".json")
             doc = {"property": prop, "obligation": r["oid"], "kind": r["kind"], "where": r.get("where"), "note": r.get("note"),
                    "task": {"module": out["module"], "name": out["name"]}, "solver": r.get("solver"),
                    "solver_output": "undischarged (" + str(r.get("detail")) + "); failing input found by the contract's native small-scope search",
@@ -344,6 +348,7 @@ def check(prop, tier, seed):
             "undecided": [r["oid"] for _, r in unknown] + [o["task"] for o in errors],
             "known_findings_reported": known_lines,
             "selftest": st,
+            "slowest_obligations_s": sorted(slowest, reverse=True)[:5],
             "repo": REPO,
             "verdict": {0: "held", 1: "violation", 2: "undecided", 3: "checker-error"}[exit_code],
         },
